@@ -83,7 +83,7 @@ fn record<K: BoolKind>(d: &mut Dig, what: &str, r: &oxidd::util::AllocResult<K::
     }
 }
 
-fn suites<K: BoolKind>(threads: u32, mism: &mut u64) {
+fn suites<K: Ext>(threads: u32, mism: &mut u64) {
     let n = 3;
     let tabs = model::subset3();
     for order in model::perms(3) {
@@ -115,6 +115,9 @@ fn suites<K: BoolKind>(threads: u32, mism: &mut u64) {
         }
         println!("suite {} order {o} ite digest {:016x}", K::NAME, d.0);
         let mut d = Dig::new();
+        K::extra(&mref, &fns, &tabs, &o, &mut d, mism);
+        println!("suite {} order {o} extended-api digest {:016x}", K::NAME, d.0);
+        let mut d = Dig::new();
         for (i, f) in fns.iter().enumerate() {
             record::<K>(&mut d, &format!("order {o} not({:#x})", tabs[i]), &f.not(), model::not(tabs[i], n), mism);
             for a in 0..8u32 {
@@ -132,6 +135,137 @@ fn suites<K: BoolKind>(threads: u32, mism: &mut u64) {
             *mism += 1;
         }
         println!("suite {} order {o} unary+gc digest {:016x} (gc collected {collected}, nodes {})", K::NAME, d.0, info.inner_nodes);
+    }
+}
+
+/// the rest of the Boolean API surface (the MT and non-MT function wrappers implement every
+/// trait method separately, so each method is exercised in each build)
+trait Ext: BoolKind {
+    fn extra(mref: &MRefOf<Self>, fns: &[Self::F], tabs: &[Tab], o: &str, d: &mut Dig, mism: &mut u64);
+}
+
+fn quant_suite<K: BoolKind>(mref: &MRefOf<K>, fns: &[K::F], tabs: &[Tab], o: &str, d: &mut Dig, mism: &mut u64)
+where
+    K::F: oxidd::BooleanFunctionQuant + oxidd::FunctionSubst,
+{
+    use oxidd::{BooleanFunctionQuant, BooleanOperator, FunctionSubst, Subst};
+    let n = 3;
+    for vars in 0..8u32 {
+        let cube = K::build(mref, model::cube_tab(vars, 0, n)).unwrap();
+        for (i, f) in fns.iter().enumerate() {
+            record::<K>(d, &format!("order {o} exists({:#x},{vars})", tabs[i]), &f.exists(&cube), model::exists(tabs[i], vars, n), mism);
+            record::<K>(d, &format!("order {o} forall({:#x},{vars})", tabs[i]), &f.forall(&cube), model::forall(tabs[i], vars, n), mism);
+            record::<K>(d, &format!("order {o} unique({:#x},{vars})", tabs[i]), &f.unique(&cube), model::unique(tabs[i], vars, n), mism);
+            let j = (i * 7 + 3) % fns.len();
+            record::<K>(d, &format!("order {o} apply_exists_and({:#x},{:#x},{vars})", tabs[i], tabs[j]), &f.apply_exists(BooleanOperator::And, &fns[j], &cube), model::exists(tabs[i] & tabs[j], vars, n), mism);
+            record::<K>(d, &format!("order {o} apply_forall_or({:#x},{:#x},{vars})", tabs[i], tabs[j]), &f.apply_forall(BooleanOperator::Or, &fns[j], &cube), model::forall(tabs[i] | tabs[j], vars, n), mism);
+            record::<K>(d, &format!("order {o} apply_unique_xor({:#x},{:#x},{vars})", tabs[i], tabs[j]), &f.apply_unique(BooleanOperator::Xor, &fns[j], &cube), model::unique(tabs[i] ^ tabs[j], vars, n), mism);
+        }
+    }
+    // substitution: x0 := f_a, x2 := f_b for a few (a, b)
+    for (a, b) in [(3usize, 11usize), (20, 5), (40, 41)] {
+        let s = Subst::new(vec![0u32, 2], vec![fns[a].clone(), fns[b].clone()]);
+        for (i, f) in fns.iter().enumerate() {
+            let exp = model::substitute(tabs[i], &[Some(tabs[a]), None, Some(tabs[b])], n);
+            record::<K>(d, &format!("order {o} substitute({:#x};{:#x},{:#x})", tabs[i], tabs[a], tabs[b]), &f.substitute(&s), exp, mism);
+        }
+    }
+}
+
+fn common_suite<K: BoolKind>(mref: &MRefOf<K>, fns: &[K::F], tabs: &[Tab], o: &str, d: &mut Dig, mism: &mut u64) {
+    use oxidd::util::{OptBool, SatCountCache};
+    let n = 3;
+    let zb = K::NAME == "zbdd";
+    for pos in 0..8u32 {
+        for neg in 0..8u32 {
+            if pos & neg != 0 {
+                continue;
+            }
+            let cube = K::build(mref, model::cube_tab(pos, neg, n)).unwrap();
+            for (i, f) in fns.iter().enumerate().step_by(2) {
+                record::<K>(d, &format!("order {o} restrict({:#x},+{pos},-{neg})", tabs[i]), &f.restrict(&cube), model::restrict(tabs[i], pos, neg, n), mism);
+                let r = f.pick_cube_dd_set(&cube);
+                if let Ok(h) = &r {
+                    let t = K::table(h).unwrap_or(u64::MAX);
+                    d.add(t);
+                    if (tabs[i] == 0) != (t == 0) || t & !tabs[i] != 0 {
+                        println!("MISMATCH {} order {o} pick_cube_dd_set({:#x}) = {t:#x}", K::NAME, tabs[i]);
+                        *mism += 1;
+                    }
+                }
+            }
+        }
+    }
+    let mut cache: SatCountCache<oxidd::util::num::Saturating<u64>, std::hash::BuildHasherDefault<oxidd::util::FxHasher>> = SatCountCache::default();
+    for (i, f) in fns.iter().enumerate() {
+        let c = f.sat_count(3, &mut cache).0;
+        d.add(c);
+        if c != tabs[i].count_ones() as u64 {
+            println!("MISMATCH {} order {o} sat_count({:#x}) = {c}", K::NAME, tabs[i]);
+            *mism += 1;
+        }
+        for cv in [0u32, 5, 7] {
+            let cube = f.pick_cube(|_, _, l| (cv >> l) & 1 == 1);
+            match cube {
+                None => d.add(99),
+                Some(c) => {
+                    for x in &c {
+                        d.add(match x {
+                            OptBool::None => 2,
+                            OptBool::False => 0,
+                            OptBool::True => 1,
+                        });
+                    }
+                }
+            }
+            let r = f.pick_cube_dd(|_, _, l| (cv >> l) & 1 == 1);
+            if let Ok(h) = &r {
+                d.add(K::table(h).unwrap_or(u64::MAX));
+            }
+        }
+        if let Some((a, b)) = f.cofactors() {
+            d.add(K::table(&a).unwrap_or(u64::MAX));
+            d.add(K::table(&b).unwrap_or(u64::MAX));
+        }
+        d.add(f.satisfiable() as u64 + 2 * f.valid() as u64);
+    }
+    let _ = zb;
+}
+
+impl Ext for Bdd {
+    fn extra(mref: &MRefOf<Self>, fns: &[Self::F], tabs: &[Tab], o: &str, d: &mut Dig, mism: &mut u64) {
+        quant_suite::<Bdd>(mref, fns, tabs, o, d, mism);
+        common_suite::<Bdd>(mref, fns, tabs, o, d, mism);
+    }
+}
+impl Ext for Bcdd {
+    fn extra(mref: &MRefOf<Self>, fns: &[Self::F], tabs: &[Tab], o: &str, d: &mut Dig, mism: &mut u64) {
+        quant_suite::<Bcdd>(mref, fns, tabs, o, d, mism);
+        common_suite::<Bcdd>(mref, fns, tabs, o, d, mism);
+    }
+}
+impl Ext for Zbdd {
+    fn extra(mref: &MRefOf<Self>, fns: &[Self::F], tabs: &[Tab], o: &str, d: &mut Dig, mism: &mut u64) {
+        use oxidd::BooleanVecSet;
+        let n = 3;
+        common_suite::<Zbdd>(mref, fns, tabs, o, d, mism);
+        for (i, f) in fns.iter().enumerate() {
+            for v in 0..n {
+                record::<Zbdd>(d, &format!("order {o} subset0({:#x},{v})", tabs[i]), &f.subset0(v), model::fam_subset0(tabs[i], v, n), mism);
+                record::<Zbdd>(d, &format!("order {o} subset1({:#x},{v})", tabs[i]), &f.subset1(v), model::fam_subset1(tabs[i], v, n), mism);
+                record::<Zbdd>(d, &format!("order {o} change({:#x},{v})", tabs[i]), &f.change(v), model::fam_change(tabs[i], v, n), mism);
+            }
+            for (j, g) in fns.iter().enumerate().step_by(5) {
+                record::<Zbdd>(d, &format!("order {o} union({:#x},{:#x})", tabs[i], tabs[j]), &f.union(g), tabs[i] | tabs[j], mism);
+                record::<Zbdd>(d, &format!("order {o} intsec({:#x},{:#x})", tabs[i], tabs[j]), &f.intsec(g), tabs[i] & tabs[j], mism);
+                record::<Zbdd>(d, &format!("order {o} diff({:#x},{:#x})", tabs[i], tabs[j]), &f.diff(g), tabs[i] & !tabs[j], mism);
+            }
+        }
+        mref.with_manager_shared(|m| {
+            for v in 0..n {
+                record::<Zbdd>(d, &format!("order {o} singleton({v})"), &<Self as BoolKind>::F::singleton(m, v), 1 << (1 << v), mism);
+            }
+        });
     }
 }
 
